@@ -1,5 +1,5 @@
 (* R8: one-step simulation for the scheme start state, the scheme state and the no scheme state.
-   Hypotheses actually used (see the Check at the end):
+   Premises actually used (see the Check at the end):
      sim_scheme_start : none;
      sim_scheme       : std_cfg c (c_fail = false for the non-fatal error before the file state, the table of
                         special schemes), base_rel (comparison of the base's scheme), base_wf (a special base
